@@ -639,8 +639,8 @@ def run(ctx):
   if ctx.only_sid:
     jobs = [j for j in jobs if ctx.only_sid.startswith(j[1][0])]
   mpctx = mp.get_context('fork')
-  with mpctx.Pool(processes=15) as pool:
-    res = list(pool.imap_unordered(worker, jobs, chunksize=20))
+  from pv import proc
+  res = list(proc.imap_unordered(worker, jobs, procs=15, chunk=20))
   recs = []
   for rec, err in res:
     if err:
